@@ -1301,7 +1301,10 @@ func (client *client) disconnectHandler(dis *packets.Disconnect) *codes.Error {
 	}
 	client.disconnect = dis
 	// 不发送will message
-	client.cleanWillFlag = true
+	// A v5 DISCONNECT with reason code 0x04 (Disconnect with Will Message) keeps the will.
+	if !(client.version == packets.Version5 && dis.Code == codes.DisconnectWithWillMessage) {
+		client.cleanWillFlag = true
+	}
 	return nil
 }
 
